@@ -12,7 +12,7 @@ A test that only RECOMPUTES the divisor (mpr._contact_position's fallback weight
 """
 import ast
 
-from ..core.astutil import u, call_name, dot_args, ncmp, parent_map, is_const, conjuncts, stable_text
+from ..core.astutil import u, call_name, dot_args, ncmp, parent_map, is_const, conjuncts, stable_text, const
 from ..core.index import FuncInfo
 from ..engines.signs import Signs, NONNEG, ZERO
 
@@ -227,9 +227,15 @@ def r_selected_component(idx, rep, rule="R-SELCOMP", floor=0):
                     # K[0] with K = np.where(vec != 0.0)[0] and assert len(K) > 0
                     elif isinstance(v, ast.Subscript) and isinstance(v.value, ast.Name):
                         kd = [x for x, pos in _defs(f, v.value.id) if pos is None]
-                        if len(kd) == 1 and isinstance(kd[0], ast.Subscript) and isinstance(kd[0].value, ast.Call) and call_name(kd[0].value) == "np.where" \
-                                and kd[0].value.args and isinstance(kd[0].value.args[0], ast.Compare):
-                            t = ncmp(kd[0].value.args[0])
+                        # the indices of the non-zero components: np.where(c)[0] == np.nonzero(c)[0] == np.flatnonzero(c) for a 1-D condition
+                        cond_ = None
+                        if len(kd) == 1 and isinstance(kd[0], ast.Subscript) and isinstance(kd[0].value, ast.Call) and call_name(kd[0].value) in ("np.where", "np.nonzero") \
+                                and len(kd[0].value.args) == 1 and const(kd[0].slice) == 0:
+                            cond_ = kd[0].value.args[0]
+                        elif len(kd) == 1 and isinstance(kd[0], ast.Call) and call_name(kd[0]) == "np.flatnonzero" and len(kd[0].args) == 1:
+                            cond_ = kd[0].args[0]
+                        if cond_ is not None and isinstance(cond_, ast.Compare):
+                            t = ncmp(cond_)
                             nonzero = t is not None and t[0] == "!=" and vec in (u(t[1]), u(t[2])) and (is_const(t[1], 0) or is_const(t[2], 0) or is_const(t[1], 0.0) or is_const(t[2], 0.0))
                             asserted = any(isinstance(a, ast.Assert) and v.value.id in {n.id for n in ast.walk(a.test) if isinstance(n, ast.Name)} for a in ast.walk(f.node))
                             ok = nonzero and asserted
